@@ -2,10 +2,12 @@ mod c02;
 mod c03;
 mod c04;
 mod c05;
+mod c06;
+mod c13;
 mod fault;
 mod core;
 mod sess;
-pub use wowsim_glue::{alloc, login, model, pipe, rng, umask, world, wowm};
+pub use wowsim_glue::{alloc, login, model, pipe, rng, umask, umglue, world, wowm};
 
 #[global_allocator]
 static GLOBAL: alloc::Counting = alloc::Counting;
@@ -128,6 +130,8 @@ fn make_check(id: &str) -> Box<dyn core::Check> {
             c02::register_opcodes(&c.ctx);
             Box::new(c)
         }
+        "C06" => Box::new(c06::C06::new()),
+        "C13" => Box::new(c13::C13::new()),
         _ => {
             eprintln!("HARNESS ERROR: unknown property {}", id);
             std::process::exit(2);
